@@ -41,14 +41,26 @@ def solve(a, b, *, left=True, out=None):
         for v in row:
             if isinstance(v, sx.LogV):
                 raise Unmodelled('linalg.solve on log-domain values')
+    nonfinite = False
     for i in range(n):
         for j in range(n):
             v = A[i][j]
-            if isinstance(v, sx.SX) and not (v.nan is False and v.pinf is False and v.ninf is False):
-                # the caller has just tested for infinities: the path condition decides this without forking
+            if isinstance(v, float) and (v != v or v in (float('inf'), float('-inf'))):
+                nonfinite = True
+            elif isinstance(v, sx.SX) and not (v.nan is False and v.pinf is False and v.ninf is False):
+                # usually the caller has just tested for infinities: the path condition decides this without forking
                 if symx.branch(sx.Or(v.nan, v.pinf, v.ninf)):
-                    raise Unmodelled('linalg.solve on non-finite symbolic values')
-                A[i][j] = sx.SX(v.v, sg=v.sg)
+                    nonfinite = True
+                else:
+                    A[i][j] = sx.SX(v.v, sg=v.sg)
+    if nonfinite:
+        # LAPACK on non-finite input: the documented contract says nothing about the result (in practice
+        # nan, -0.0 or garbage without an error) -- modelled as arbitrary values of the result type
+        size = (n,) if b.dim() == 1 else (n, b.size(1))
+        cnt = 1
+        for s_ in size:
+            cnt *= s_
+        return _result([sx.fresh_unspecified('linalg') for _ in range(cnt)], size, a.dtype, (a, b))
     d = _det(A)
     singular = sx.eq(d, 0.0)
     if symx.branch(singular):
